@@ -86,9 +86,10 @@ def fresh_mapper_methods(repo):
     cfgs = {}
     while changed:
         changed = False
-        for name, f in c.methods.items():
+        for name, f0 in c.methods.items():
             if name in fresh:
                 continue
+            f = repo.func(MAPPER, f0.qual)
             rets = [n for n in _walk_no_nested(f.node) if isinstance(n, ast.Return)]
             if not rets or any(r.value is None for r in rets):
                 continue
